@@ -1068,3 +1068,48 @@ def built_priors(case, ts):
 
 def priors_for(case, ts):
     return make_priors(case, ts) if case.get("prior_kind", "explicit") == "explicit" else built_priors(case, ts)
+
+
+def brute_force_log(case):
+    """the same enumeration as brute_force, carried out in log space (scipy logpmf, logaddexp), for inputs
+    with extreme evidence whose weights are far below the double range; returns (posterior rows, log Z)"""
+    import scipy.stats
+    d = case["ts"]
+    tp = case["grid"]
+    G = len(tp)
+    fixed = [bool(f) for f in d["nodes_flags"]]
+    ns = [u for u in range(len(fixed)) if not fixed[u]]
+    counts = edge_mutation_counts(d)
+    edges = [(p, c, m, r - l) for (l, r, p, c), m in zip(d["edges"], counts)]
+    NEG = -math.inf
+    pm = []
+    for p, c, m, span in edges:
+        pm.append([[float(scipy.stats.poisson.logpmf(m, (tp[i] - tp[j] + case["eps"]) * case["mu"] * span))
+                    if j <= i else NEG for j in range(G)] for i in range(G)])
+    with np.errstate(divide="ignore"):
+        prior = {u: [float(x) for x in np.log(np.array(case["prior"][str(u)], dtype=float))] for u in ns}
+    pos = {u: k for k, u in enumerate(ns)}
+    terms = {u: [[] for _ in range(G)] for u in ns}
+    allw = []
+    for a in itertools.product(range(G), repeat=len(ns)):
+        w = 0.0
+        for u in ns:
+            w += prior[u][a[pos[u]]]
+        if w == NEG:
+            continue
+        for k, (p, c, m, span) in enumerate(edges):
+            ip = a[pos[p]]
+            ic = 0 if fixed[c] else a[pos[c]]
+            if ic > ip:
+                w = NEG
+                break
+            w += pm[k][ip][ic]
+        if w == NEG or math.isnan(w):
+            continue
+        allw.append(w)
+        for u in ns:
+            terms[u][a[pos[u]]].append(w)
+    lse = lambda xs: float(np.logaddexp.reduce(np.array(xs))) if xs else NEG
+    logZ = lse(allw)
+    post = {u: [math.exp(lse(terms[u][i]) - logZ) if terms[u][i] else 0.0 for i in range(G)] for u in ns}
+    return post, logZ
